@@ -30,6 +30,7 @@ func scenarios() []Scenario {
 		{Kind: "simultaneous", AtoB: 3000, BtoA: 2500},
 		{Kind: "halfclose", AtoB: 1500, BtoA: 4000},
 		{Kind: "zerowindow", AtoB: 9000, BtoA: 10},
+		{Kind: "zerowindow", AtoB: 4096, BtoA: 10}, // exactly fills the receive buffer: FIN pending behind a closed window with everything acknowledged
 		{Kind: "oneway", AtoB: 100, BtoA: 0},
 		{Kind: "oneway", AtoB: 0, BtoA: 0},
 	}
@@ -177,8 +178,15 @@ func genCase(rt *rapid.T) Case {
 	size := rapid.OneOf(rapid.IntRange(0, 3), rapid.IntRange(1, 3000), rapid.IntRange(3000, 40000))
 	c.Sc.AtoB = size.Draw(rt, "a_to_b")
 	c.Sc.BtoA = size.Draw(rt, "b_to_a")
-	if c.Sc.Kind == "zerowindow" && c.Sc.AtoB < 6000 {
-		c.Sc.AtoB += 6000
+	if c.Sc.Kind == "zerowindow" {
+		switch rapid.IntRange(0, 2).Draw(rt, "zw_fill") {
+		case 0: // the payload fills the 4 KiB receive buffer exactly: the FIN waits behind a closed window
+			c.Sc.AtoB = 4096 * rapid.IntRange(1, 2).Draw(rt, "zw_bufs")
+		default:
+			if c.Sc.AtoB < 6000 {
+				c.Sc.AtoB += 6000
+			}
+		}
 	}
 	c.Cfg.V6 = rapid.Bool().Draw(rt, "v6")
 	c.Cfg.SACK = rapid.Bool().Draw(rt, "sack")
